@@ -99,6 +99,9 @@ void* gb_alloc(gbuf_t* g, size_t n, size_t align, size_t mis, size_t guard);
 // returns 0 when both guard bands are intact, else offset info through *where (negative = before)
 int gb_check(gbuf_t* g, long* where);
 void gb_free(gbuf_t* g);
+// one-shot: the next n (<= 8) gb_alloc calls of this thread place their buffer at these offsets inside a page (rounded down to the
+// requested alignment); used to sweep the distance between two operands modulo the page size
+void gb_force_page_offsets(const long* offs, int n);
 // pre-fill the user area with pattern id (0: 0x00, 1: 0xFF, 2: signalling NaN pattern, 3: noise)
 void gb_prefill(gbuf_t* g, int pattern, uint64_t seed);
 void fill_pattern(uint8_t* p, size_t n, int pattern, uint64_t seed);
@@ -143,7 +146,9 @@ extern const char* const disp_name[N_DISP];
 extern int g_case_place;    // set by case_begin: 0 separate allocations (default); 1 / 2: every guarded buffer of the case is carved from one
                             // arena at ascending / descending addresses in allocation order, 256 guard bytes apart; 3: every buffer ENDS at a page
                             // boundary followed by an inaccessible page; 4: every buffer STARTS at a page boundary preceded by an inaccessible
-                            // page; 5: every buffer in its own mapping, 64 GiB away from the previous one
+                            // page; 5: every buffer in its own mapping, 64 GiB away from the previous one; 6: packed back to back; 7: own mappings
+                            // EXACT multiples of 64 GiB apart (same offset in each: pointer differences have all-zero low 36 bits); 8: every
+                            // buffer at a page offset within +-16 alignment units of 2048 (operands a few words apart modulo the page size)
 extern int g_case_aligned;  // set by case_begin for a quarter of the cases: all guarded buffers 64-byte aligned
 extern int g_dispatch_native;
 static inline const char* dispatch_name(void) { return disp_name[g_dispatch_native & 3]; }
